@@ -1,0 +1,10 @@
+//go:build !verif
+
+package packet
+
+// VfOn is true only in builds with the "verif" tag (schedule-controlled
+// conformance runs of the verification harness); without the tag every
+// VfGate call below is dead code.
+const VfOn = false
+
+func VfGate(point string, key, val interface{}) {}
